@@ -111,11 +111,14 @@ CHECKS = {
                      'written by the real code into a watched scratch directory and its disk projection judged by TLC (ReportTreeTrace).',
                 note='titles from a 10-token alphabet; Sphinx toctree resolution re-implemented in the projection; open finding for titles ending in .rst',
                 technique='TLA+ spec + TLC enumeration of trees, replay into FormattedRst.write, TLC trace validation'),
-    'C10': dict(engine='T4Doc', category='exploration', design_ref='DESIGN.md §4 C10',
+    'C10': dict(engine='T4Doc', also=['ParseLock'], category='exploration', design_ref='DESIGN.md §4 C10',
                 text='Modest level. T4Doc.tla (ReadOf(PrintDoc(doc)) = Expected: edition selection, response/zone attribution, bin flipping, column '
                      'roles, error = value x sigma/100) and Ap3File.tla (Reader items = Picker picks = stored arrays) are checked by TLC over document '
                      'structures; dumps are rendered into listings from templates cut out of the shipped examples / written with h5py and read back by '
-                     'the real Parser, Reader and Picker; random printed listings are validated by TLC against T4DocTrace.tla.',
+                     'the real Parser, Reader and Picker; random printed listings are validated by TLC against T4DocTrace.tla. ParseLock.tla '
+                     '(listings parsed by 2-3 threads sharing the module-level grammar: lock, re-binding and read of a Forward element) is model '
+                     'checked, and every schedule of real parser threads under the deterministic scheduler is validated against it; a listing read '
+                     'differently beside another one is a violation.',
                 note='decides the templated spectrum / integrated / time-spectrum layouts and the standard Apollo3 tree only; the number-for-number '
                      'comparison is Python-side on exactly representable values; other layouts (mesh, IFP, sensitivities, depletion) are not covered',
                 technique='TLA+ document model + TLC enumeration of structures, rendering/read-back through the real parsers, TLC trace validation'),
@@ -170,6 +173,7 @@ ENGINES = {
     'Factory': dict(path='specs/Factory.tla', kind_free_text='request/task spec + FactoryImpl.tla refinement + FactoryTrace.tla; conf_factory.py'),
     'RunCmd': dict(path='specs/RunCmd.tla', kind_free_text='command runner + task directory spec + RunCmdTrace.tla; conf_runcmd.py'),
     'EnvOps': dict(path='specs/EnvOps.tla', kind_free_text='Env.apply / set_status / get_status as a tree merge (+EnvOpsLaws.tla: laws of the merge, EnvOpsTrace.tla); run inside C01: only the clause "the applied update is readable and nothing else is lost" can raise a C01 violation; conf_envops.py'),
+    'ParseLock': dict(path='specs/ParseLock.tla', kind_free_text='parser threads sharing the pyparsing grammar: lock / re-bind / read actions (+ParseLockMC.tla, ParseLockTrace.tla); detsched.py schedules real Parser threads; run inside C10; conf_parselock.py'),
     'RList': dict(path='specs/RList.tla', kind_free_text='reverse-indexed list under DepGraph (observations only, run inside C16) + RListTrace.tla; conf_rlist.py'),
     'Decide': dict(path='specs/Decide.tla', kind_free_text='decision function of the backend for one task, all inputs (serves C02, C04) + DecideTrace.tla; conf_decide.py'),
     'Student': dict(path='specs/Student.tla', kind_free_text='function-like TLA+ spec + StudentTrace.tla; harness/laws.py, conf_student.py'),
